@@ -204,7 +204,7 @@ func respBuilderAPIs(env *respEnv) []*respAPI {
 		env.ctx.Add("#builder "+ex.path, fmt.Sprintf("op=0x%X type=%v", op, ex.v.Type()), false, "C12")
 	}
 	env.ctx.Add("#builders-executed", fmt.Sprint(len(methods)), false, "C12")
-	if len(methods) < 25 {
+	if len(methods) < 15 { // a floor against vacuity, far below the 26 builders of today
 		env.ctx.Res.Fail(fmt.Sprintf("resp: only %d fluent builders of *kmipclient.Client could be executed (found: %v)", len(methods), methods))
 	}
 	return apis
